@@ -1,6 +1,7 @@
 package props
 
 import (
+	"os"
 	"fmt"
 	"math/big"
 	"strings"
@@ -108,6 +109,15 @@ func C01(p *load.Prog, r *report.Report) {
 		// the path's own assumptions about k (e.g. a k = 0 shortcut) apply to both sides
 		coefP, wantP := it.DeepApplyTerm(coef), it.DeepApplyTerm(want)
 		diff := coefP.Sub(wantP)
+		if dc, ok := diff.IsConst(); !(ok && dc.Sign() == 0) {
+			// a fixed-window multiplication sees k as base-2^w digits: compare in the basis of its digit tests
+			d2 := absint.CompleteFamilies(coefP).Sub(absint.DigitBasis(wantP, coefP))
+			if dc2, ok2 := d2.IsConst(); ok2 && dc2.Sign() == 0 {
+				diff = d2
+			} else if os.Getenv("SVDEBUG") != "" {
+				fmt.Fprintf(os.Stderr, "DIGITDIFF %s\n", d2)
+			}
+		}
 		if dc, ok := diff.IsConst(); ok && dc.Sign() == 0 && !extra {
 			r.OK("C01.ladder", "Multiply(P,k) ladder", "receiver = [Σ_{i<256} 2^i·BIT(Canon(k),i)]·P = [k]P; 256 joined ladder steps")
 		} else {
